@@ -7,7 +7,10 @@
        patches fails in its worker's own in-order run - the patch the sequential driver stops at;
      * every worker has applied all its file patches of patches <= F (the failing patch completely, so
        the rejects are complete), possibly more (run-ahead);
-     * undoing what it applied beyond F leaves exactly the state after its file patches of patches <= F.
+     * undoing what it applied beyond F leaves exactly the state after its file patches of patches <= F;
+     * the sequential driver on the same file patches stops at the same F with the same per-worker states
+       (C06_sequential_is_the_same), so both drivers hand the same states to the common tail
+       (roll back patch F with rejects, save, backups).
    The two comparison operators (`index > earliest` to stop, `index <= final_patch` to end the undoing)
    and the way a failing index is published (fetch_min) are read from parallel.rs into Params.v; the
    instantiation below only type-checks while they are >, <= and an atomic minimum.
@@ -18,7 +21,7 @@
    schedules forced through the cfg-guarded hook. *)
 From Coq Require Import List Arith Bool.
 Import ListNotations.
-From RQ Require Import Params Base Parallel.
+From RQ Require Import Params Base Parallel ParallelSeq.
 
 Theorem C06_every_schedule :
   forall (St T : Type) (run : St -> T -> St * bool) (undo : St -> T -> St) (idx : T -> nat),
@@ -38,6 +41,19 @@ Proof.
   exact (parallel_final St T run undo idx Hundo n eq_refl eq_refl eq_refl specs sched).
 Qed.
 Print Assumptions C06_every_schedule.
+
+(* the sequential driver on the same file patches (all in series order, each on the state of the worker that
+   owns its files, stopping after the first patch with a failure) ends at the same F and leaves every worker's
+   files in the very state the parallel workers reach after undoing their run-ahead *)
+Theorem C06_sequential_is_the_same :
+  forall (St T : Type) (run : St -> T -> St * bool) (idx : T -> nat) (n W : nat)
+         (all : list (nat * T)) (st : nat -> St),
+  gsorted T idx all -> (forall g, In g all -> idx (snd g) < n) -> (forall g, In g all -> fst g < W) ->
+  let '(st', F) := seq_run St T run idx n st None all in
+  F = F_of St T run idx n (specs_of St T W st all) /\
+  forall x, st' x = fold_run St T run (st x) (upto_patch T idx (F_of St T run idx n (specs_of St T W st all)) (tasks_of T x all)).
+Proof. exact sequential_matches_parallel. Qed.
+Print Assumptions C06_sequential_is_the_same.
 
 (* non-vacuity: two workers, the second runs three patches ahead before the first one fails at patch 1 *)
 Definition ex_run (s : list nat) (t : nat * bool) : list nat * bool := (fst t :: s, snd t).
